@@ -199,6 +199,49 @@ def test_simfs():
     simfs.mount(None)
 
 
+def test_stepper():
+    """fork/join stepping of prange-shaped kernels: privatisation, reductions, continue, shared prelude objects"""
+    from cryosim.stepper import Stepper
+    from cryosim import selftest_kernels as K
+
+    def part(T, seed):
+        import random
+
+        def partition(idx):
+            r = random.Random(seed)
+            sh = [[] for _ in range(T)]
+            for i in idx:
+                sh[r.randrange(T)].append(i)
+            return sh
+        return partition
+
+    a = np.array([3.0, -1.0, 4.0, 1.0, -5.0, 9.0, 2.0, 6.0])
+    raced = 0
+    for seed in range(40):
+        T = 2 + seed % 3
+        out = np.full(len(a), np.nan)
+
+        def call(fn, *args):
+            return Stepper(seed, T, 0.5).run(fn, args, part(T, seed))
+
+        info = call(K.k_private, a, out)
+        want = np.where(a < 0, np.nan, a * 2.0 + 1.0)
+        check(info["mode"] == "fork_join" and np.array_equal(out, want, equal_nan=True), "stepper: private scalar + continue (seed %d)" % seed)
+        out2 = np.zeros(len(a))
+        call(K.k_two_regions, a, out2)
+        check(np.array_equal(out2, (a + 1.0)[::-1]), "stepper: two parallel regions with a join in between (seed %d)" % seed)
+        out3 = np.zeros(len(a))
+        call(K.k_shared_scratch, a, out3)
+        raced += int(not np.array_equal(out3, a))
+    check(raced > 5, "stepper: a scratch buffer allocated before the loop is shared - the race must show under some schedules (%d of 40)" % raced)
+    # reduction: x += ... on an outer name
+    from cryosim import stepper as _st
+    code, name, src = _st.transform(K.k_reduction)
+    check("nonlocal total" in src, "stepper: augmented assignment to an outer name is a reduction (nonlocal)")
+    code, name, src = _st.transform(K.k_private)
+    check("t=__cryosim_fp__" in src.replace(" ", "") and "return" in src, "stepper: first-private default + continue->return")
+
+
 def test_determinism(props, n):
     rc = 0
     for pid in props:
@@ -214,6 +257,7 @@ def test_determinism(props, n):
 def main():
     test_parsers()
     test_simfs()
+    test_stepper()
     props = [a for a in sys.argv[1:] if a.startswith("C")]
     if "--determinism" in sys.argv or props:
         n = 15
